@@ -26,7 +26,8 @@
        Chebyshev): the cumulative regret the chance-sampled solver holds for an action is, with
        probability at least 1 - 4 D^2 T / lam^2, within [lam] of the true cumulative counterfactual regret
        along its own trajectory; the average deviation per iteration vanishes in probability as T grows
-       ([theories/SampledConcentration.v]).
+       ([theories/SampledConcentration.v]; the same for the external-sampled solver:
+       [theories/ExternalConcentration.v]).
 
     NOT proved: the probabilistic clause for the *returned profile* ("with overwhelming
     probability the true regret of the returned profile is below D*N*sqrt(A)/sqrt(T)"): items 4
@@ -37,7 +38,7 @@ From Coq Require Import Reals List Bool NArith.
 From Cfr.theories Require Import Num RInst Tree GameWF Valid Strat Eval Solve SolveValidProofs
      LoopProofs Incr IterChar RmPotential CfMass CfrRate ExtIncr SampledRate ExternalRate
      Unbiased ExternalUnbiased VanillaMulti ParallelProofs ExternalMulti ExternalProofs
-     SampledMultiRate SampledMartingale ExternalMartingale SampledConcentration.
+     SampledMultiRate SampledMartingale ExternalMartingale SampledConcentration ExternalConcentration.
 From Coq Require Import Permutation.
 Import ListNotations.
 Open Scope R_scope.
@@ -330,6 +331,93 @@ Print Assumptions C04_sampled_chebyshev_rate.
 Print Assumptions C04_sampled_deviation_vanishes.
 Print Assumptions C04_sampled_chebyshev_vanilla.
 Print Assumptions C04_sampled_deviation_vanishes_vanilla.
+(** 8. (round 3) the same second-moment method for the external-sampled solver: the expectation is over the chance
+    draws and the action draws of the non-updating player, whose weights are the current strategy of the reached state *)
+Theorem C04_ext_md_orthogonal :
+  forall (g : @game RNum) (p : @params RNum),
+    WFgame g -> PerfectRecall g -> ChanceOK g -> NoRepeat (g_root g) ->
+  forall me i a s t n it st,
+    InvA (arities g true) (arities g false) st -> (s < t)%nat -> (t < n)%nat ->
+    expect_run_ext g p n it st
+      (fun xs => ext_md_at g p me i a it st xs s * ext_md_at g p me i a it st xs t) = 0.
+Proof. exact ext_md_orthogonal. Qed.
+
+Theorem C04_ext_second_moment :
+  forall (g : @game RNum) (p : @params RNum),
+    WFgame g -> PerfectRecall g -> ChanceOK g -> NoRepeat (g_root g) ->
+  forall me i a n it st,
+    InvA (arities g true) (arities g false) st ->
+    expect_run_ext g p n it st (fun xs => ext_mart g p me i a it st xs ^ 2) =
+    sum_upto n (fun t => expect_run_ext g p n it st (fun xs => ext_md_at g p me i a it st xs t ^ 2)).
+Proof. exact ext_second_moment. Qed.
+
+Theorem C04_ext_md_abs_bound :
+  forall (g : @game RNum) (p : @params RNum) lo hi,
+    WFgame g -> PerfectRecall g -> ChanceOK g -> PayoffsIn lo hi (g_root g) ->
+  forall me i a, (i < length (arities g me))%nat -> (a < nth i (arities g me) O)%nat ->
+  forall it st x,
+    InvA (arities g true) (arities g false) st -> ext_draws_in g p it st x ->
+    Rabs (ext_md g p me i a it st x) <= 2 * (hi - lo).
+Proof. exact ext_md_abs_bound. Qed.
+
+Theorem C04_ext_second_moment_bound :
+  forall (g : @game RNum) (p : @params RNum) lo hi,
+    WFgame g -> PerfectRecall g -> ChanceOK g -> PayoffsIn lo hi (g_root g) -> NoRepeat (g_root g) ->
+  forall me i a, (i < length (arities g me))%nat -> (a < nth i (arities g me) O)%nat ->
+  forall n,
+    expect_run_ext g p n 1 (@init_state RNum g)
+      (fun xs => ext_mart g p me i a 1 (@init_state RNum g) xs ^ 2) <= 4 * (hi - lo) ^ 2 * INR n.
+Proof. exact ext_second_moment_bound. Qed.
+
+Theorem C04_ext_chebyshev_explicit :
+  forall (g : @game RNum) (p : @params RNum) lo hi,
+    WFgame g -> PerfectRecall g -> ChanceOK g -> PayoffsIn lo hi (g_root g) -> NoRepeat (g_root g) ->
+  forall me i a, (i < length (arities g me))%nat -> (a < nth i (arities g me) O)%nat ->
+  forall n lam, 0 < lam ->
+    expect_run_ext g p n 1 (@init_state RNum g)
+      (fun xs => if Rle_dec lam (Rabs (ext_sampled_sum g p me i a 1 (@init_state RNum g) xs -
+                                       ext_true_sum g p me i a 1 (@init_state RNum g) xs))
+                 then 1 else 0) <=
+    4 * (hi - lo) ^ 2 * INR n / lam ^ 2.
+Proof. exact ext_chebyshev_explicit. Qed.
+
+Theorem C04_ext_chebyshev_rate :
+  forall (g : @game RNum) (p : @params RNum) lo hi,
+    WFgame g -> PerfectRecall g -> ChanceOK g -> PayoffsIn lo hi (g_root g) -> NoRepeat (g_root g) ->
+  forall me i a, (i < length (arities g me))%nat -> (a < nth i (arities g me) O)%nat ->
+  forall n eps, (0 < n)%nat -> 0 < eps ->
+    expect_run_ext g p n 1 (@init_state RNum g)
+      (fun xs => ind_ge eps (ext_mart g p me i a 1 (@init_state RNum g) xs / INR n)) <=
+    4 * (hi - lo) ^ 2 / (eps ^ 2 * INR n).
+Proof. exact ext_chebyshev_rate. Qed.
+
+Theorem C04_ext_deviation_vanishes :
+  forall (g : @game RNum) (p : @params RNum) lo hi,
+    WFgame g -> PerfectRecall g -> ChanceOK g -> PayoffsIn lo hi (g_root g) -> NoRepeat (g_root g) ->
+  forall me i a, (i < length (arities g me))%nat -> (a < nth i (arities g me) O)%nat ->
+  forall eps delta, 0 < eps -> 0 < delta ->
+    exists n0 : nat, forall n, (n0 <= n)%nat ->
+      expect_run_ext g p n 1 (@init_state RNum g)
+        (fun xs => ind_ge eps (ext_mart g p me i a 1 (@init_state RNum g) xs / INR n)) <= delta.
+Proof. exact ext_deviation_vanishes. Qed.
+
+Theorem C04_ext_chebyshev_vanilla :
+  forall (g : @game RNum) lo hi,
+    WFgame g -> PerfectRecall g -> ChanceOK g -> PayoffsIn lo hi (g_root g) -> NoRepeat (g_root g) ->
+  forall me i a, (i < length (arities g me))%nat -> (a < nth i (arities g me) O)%nat ->
+  forall n lam, 0 < lam ->
+    expect_run_ext g (@p_vanilla RNum) n 1 (@init_state RNum g)
+      (fun xs => ind_ge lam (ext_regret_dev g me i a xs)) <= 4 * (hi - lo) ^ 2 * INR n / lam ^ 2.
+Proof. exact ext_chebyshev_vanilla. Qed.
+
+Print Assumptions C04_ext_md_orthogonal.
+Print Assumptions C04_ext_second_moment.
+Print Assumptions C04_ext_md_abs_bound.
+Print Assumptions C04_ext_second_moment_bound.
+Print Assumptions C04_ext_chebyshev_explicit.
+Print Assumptions C04_ext_chebyshev_rate.
+Print Assumptions C04_ext_deviation_vanishes.
+Print Assumptions C04_ext_chebyshev_vanilla.
 Print Assumptions C04_sampled_md_step.
 Print Assumptions C04_sampled_md_orthogonal.
 Print Assumptions C04_sampled_run_tower.
